@@ -214,7 +214,7 @@ def bounds(tier, seed):
         'FCW_wide': 'pad > domain, same rule per axis (7^dim tuples): 2x1,1x1,2x2 k5x5/k7x3; 1x1x2 k5x5x3',
         'FCW_3d': '2x2x2 k3x3x3: every tuple within 2 deviations of a uniform tuple',
         'FCW_inert': 'rules on axes with pad 0 and z rules on 2-D grids have no effect',
-        'overrides': OVERRIDES,
+        'overrides': {'names': OVERRIDES, 'on': '3x2 k3x3, 2x2x2 k3x3x3, 4x3 k5x3, 3x2 r1.5 rel, 2x2x2 r2.5 abs; mixed list'},
     }
     if tier == 'thorough':
         b['thorough_levels'] = {
@@ -265,9 +265,12 @@ def _fcw(grid, kshape, kernel, form, modes, seed, ovr=None):
     return c
 
 
-def _fcr(grid, size, rel, radius, modes, seed):
-    return {'fam': 'FCR', 'grid': list(grid), 'size': list(size), 'rel': bool(rel), 'radius': radius,
-            'modes': [list(m) for m in modes], 'seed': seed}
+def _fcr(grid, size, rel, radius, modes, seed, ovr=None):
+    c = {'fam': 'FCR', 'grid': list(grid), 'size': list(size), 'rel': bool(rel), 'radius': radius,
+         'modes': [list(m) for m in modes], 'seed': seed}
+    if ovr is not None:
+        c['ovr'] = ovr
+    return c
 
 
 def _quick_cases(seed):
@@ -315,6 +318,8 @@ def _quick_cases(seed):
         yield from emit(_fcw((3, 2, 0), (3, 3, 1), 'asymn', '2d', [], seed, ovr=o), MIXED6)
         yield from emit(_fcw((2, 2, 2), (3, 3, 3), 'signed', '3d', [], seed, ovr=o), MIXED6)
         yield from emit(_fcw((4, 3, 0), (5, 3, 1), 'msym', '3d', [], seed, ovr=o), MIXED6)
+        yield from emit(_fcr((3, 2, 0), UNIT, True, 1.5, [], seed, ovr=o), MIXED6)
+        yield from emit(_fcr((2, 2, 2), ANISO, False, 2.5, [], seed, ovr=o), MIXED6)
 
 
 def _thorough_cases(seed):
@@ -449,6 +454,7 @@ def invariants(fields, Y, want_volume):
             n += 1
             if abs(y.sum() - x.sum()) > tol * max(1, x.size):
                 out.append(('volume', {'field': fname, 'x': x, 'y': y, 'sum_y_minus_sum_x': y.sum() - x.sum()}))
+    out.sort(key=lambda t: ('const', 'range', 'volume').index(t[0]))   # report the most basic broken invariant
     return out, n
 
 
@@ -495,8 +501,8 @@ def exec_fc(case):
         return c
 
     def evaluate(modes, ovr=None):
-        ref_ovr = [(el, v) for _, el, v in (ovr or [])]
         """Runs one mode tuple.  Returns dict(status=..., ...) without recording anything."""
+        ref_ovr = [(el, v) for _, el, v in (ovr or [])]
         why = rf.admissible(grid, predicted_pads(case), modes)     # decided by the reference BEFORE anything is run
         if why is not None:
             return {'status': 'inadmissible', 'why': why}
